@@ -1272,6 +1272,7 @@ class CountFingerprint(Fingerprint):
         cf.counts = dict(
             [(k, int(v / x)) for k, v in self.counts.items() if v >= x]
         )
+        cf.indices = sorted(cf.counts.keys())
         return cf
 
     def __div__(self, x):
